@@ -19,6 +19,8 @@ from pdfminer.pdftypes import (
     LITERALS_FLATE_DECODE,
     LITERALS_JBIG2_DECODE,
     LITERALS_JPX_DECODE,
+    resolve1,
+    stream_value,
 )
 
 PIL_ERROR_MESSAGE = (
@@ -206,7 +208,9 @@ class ImageWriter:
             filters = image.stream.get_filters()
             for filter_name, params in filters:
                 if filter_name in LITERALS_JBIG2_DECODE:
-                    global_streams.append(params["JBIG2Globals"].resolve())
+                    params = resolve1(params)
+                    if isinstance(params, dict) and "JBIG2Globals" in params:
+                        global_streams.append(stream_value(params["JBIG2Globals"]))
 
             if len(global_streams) > 1:
                 msg = (
